@@ -684,6 +684,7 @@ _ROBUST_CORPUS = dict(
           '[{"uid":{"type":"User","id":"u1"},"attrs":{"n":1,"rec":{"inner":2},"mgr":{"__entity":{"type":"User","id":"u2"}},"d":{"__extn":{"fn":"decimal","arg":"1.5"}}},"parents":[{"type":"Group","id":"g"}],"tags":{"k":1}},{"uid":{"type":"Group","id":"g"},"attrs":{},"parents":[]}]',
           '{"":{"entityTypes":{"User":{"memberOfTypes":["Group"],"shape":{"type":"Record","attributes":{"n":{"type":"Long"},"opt":{"type":"Long","required":false},"s":{"type":"Set","element":{"type":"Entity","name":"User"}}}},"tags":{"type":"Long"}},"Group":{},"Color":{"enum":["r","g"]}},"actions":{"view":{"appliesTo":{"principalTypes":["User"],"resourceTypes":["User"],"context":{"type":"Record","attributes":{"flag":{"type":"Boolean"}}}},"memberOf":[{"id":"all"}]},"all":{}},"commonTypes":{"T":{"type":"Long"}}}}',
           '{"principal":{"type":"User","id":"u1"},"action":{"type":"Action","id":"view"},"resource":{"type":"Doc","id":"d"},"context":{"flag":true},"policies":{"staticPolicies":{"a":"permit(principal, action, resource);"},"templates":{"t":"permit(principal == ?principal, action, resource);"},"templateLinks":[{"templateId":"t","newId":"l","values":{"?principal":{"type":"User","id":"u1"}}}]},"entities":[],"validateRequest":true}',
+          '{"effect":"forbid","principal":{"op":"All"},"action":{"op":"All"},"resource":{"op":"All"},"conditions":[{"kind":"when","body":{"||":{"left":{"isInRange":[{"ip":[{"Value":"10.0.0.1"}]},{"ip":[{"Value":"10.0.0.0/8"}]}]},"right":{"&&":{"left":{"lessThan":[{"decimal":[{"Value":"1.5"}]},{"decimal":[{"Value":"2.0"}]}]},"right":{"isIpv4":[{"ip":[{"Value":"::1"}]}]}}}}}},{"kind":"unless","body":{"<":{"left":{"toDate":[{"datetime":[{"Value":"2024-01-01"}]}]},"right":{"offset":[{"datetime":[{"Value":"2024-01-01"}]},{"duration":[{"Value":"1h"}]}]}}}}],"annotations":{}}',
           '{"flag": true, "lim": 3, "x": {"__entity": {"type": "User", "id": "a"}}}',
           '{"t": {"__extn": {"fn": "datetime", "arg": "2024-02-29T10:20:30.123-0030"}}, "d": {"__extn": {"fn": "duration", "arg": "1d2h3m4s5ms"}}, "x": {"__extn": {"fn": "decimal", "arg": "-12.3456"}}, "i": {"__extn": {"fn": "ip", "arg": "10.1.2.3/8"}}}'],
 )
@@ -762,6 +763,19 @@ def _robust_extra(fam, tier, wd, seed):
             except Exception:
                 pass
             k += 1
+    # every extension function of the JSON policy format with 0, 1, 2 and 3 arguments (arity is checked late: printing,
+    # validating and evaluating such a policy must still not panic)
+    _arg = {"Value": "1.5"}
+    for fn in ("ip", "decimal", "datetime", "duration", "isIpv4", "isIpv6", "isLoopback", "isMulticast", "isInRange", "lessThan", "lessThanOrEqual",
+               "greaterThan", "greaterThanOrEqual", "toDate", "toTime", "offset", "durationSince", "toMilliseconds", "toSeconds", "toMinutes",
+               "toHours", "toDays"):
+        for nargs in (0, 1, 2, 3):
+            body = {fn: [_arg] * nargs}
+            for wrap in (body, {"!": {"arg": body}}, {"Set": [body]}, {"if-then-else": {"if": body, "then": body, "else": {"Value": True}}}):
+                pol = {"effect": "permit", "principal": {"op": "All"}, "action": {"op": "All"}, "resource": {"op": "All"},
+                       "conditions": [{"kind": "when", "body": wrap}]}
+                cases.append(dict(id="a%d" % k, kind="json", text=json.dumps(pol)))
+                k += 1
     # character / byte-level mutants of valid texts, through every text entry point
     alphabet = ['"', "\\", "{", "}", "(", ")", "[", "]", "*", "\n", "\0", "‮", "\U0001F600", "@", ";", ":", "::", "?", "//", "/*", " ", "9223372036854775808", "\\u{", "\\x", "�", "é"]
     for kind in ("policy", "schema", "json"):
